@@ -40,6 +40,7 @@ import (
 	"github.com/prometheus/alertmanager/notify/webex"
 	"github.com/prometheus/alertmanager/notify/webhook"
 	"github.com/prometheus/alertmanager/notify/wechat"
+	"github.com/prometheus/alertmanager/pkg/verifhook"
 	"github.com/prometheus/alertmanager/template"
 )
 
@@ -48,6 +49,9 @@ import (
 func BuildReceiverIntegrations(nc config.Receiver, tmpl *template.Template, logger *slog.Logger, httpOpts ...commoncfg.HTTPClientOption) ([]notify.Integration, error) {
 	if logger == nil {
 		logger = promslog.NewNopLogger()
+	}
+	if o, ok := verifhook.Get("receiver.httpopts", nc.Name).([]commoncfg.HTTPClientOption); ok {
+		httpOpts = append(httpOpts, o...)
 	}
 
 	var (
